@@ -13,7 +13,8 @@ variable {I K V : Type} [DecidableEq K]
 def ThreadOK (m : Memo I K V) (th : Thread I V) : Prop :=
   (∀ x, x ∈ th.results → x.2 = m.compute x.1) ∧
   (match th.phase, th.todo with
-   | .needStore v, i :: _ => v = m.compute i ∧ m.cacheable i = true
+   | .needStore v fill, i :: _ => v = m.compute i ∧ m.cacheable i = true ∧ fill = none
+   | .needFill _, _ :: _ => False
    | _, _ => True)
 
 omit [DecidableEq K] in
@@ -26,11 +27,12 @@ theorem finish_ok (m : Memo I K V) (th : Thread I V) (i : I) (rest : List I) (v 
   · exact h x hx
   · subst hx; exact hv
 
-theorem afterMiss_ok (m : Memo I K V) (th : Thread I V) (i : I) (rest : List I)
-    (h : ∀ x, x ∈ th.results → x.2 = m.compute x.1) (htodo : th.todo = i :: rest) : ThreadOK m (afterMiss m th i rest) := by
+omit [DecidableEq K] in
+theorem afterMiss_ok (m : Memo I K V) (part : I → V) (th : Thread I V) (i : I) (rest : List I)
+    (h : ∀ x, x ∈ th.results → x.2 = m.compute x.1) (htodo : th.todo = i :: rest) : ThreadOK m (afterMiss m false part th i rest) := by
   unfold afterMiss
   by_cases hc : m.cacheable i = true
-  · simp only [hc, if_true]
+  · simp only [hc, if_true, Bool.false_eq_true, if_false]
     exact ⟨h, by simp [htodo, hc]⟩
   · simp only [hc]
     exact finish_ok m th i rest _ h rfl
@@ -38,7 +40,7 @@ theorem afterMiss_ok (m : Memo I K V) (th : Thread I V) (i : I) (rest : List I)
 theorem tstep_ok (m : Memo I K V) (ht : Transparent m) (t : Table K V) (th : Thread I V)
     (hi : InvOn (fun _ => True) m t) (hth : ThreadOK m th) :
     InvOn (fun _ => True) m (tstep m t th).1 ∧ ThreadOK m (tstep m t th).2.1 := by
-  unfold tstep
+  unfold tstep tstepG
   cases htodo : th.todo with
   | nil => exact ⟨hi, hth⟩
   | cons i rest =>
@@ -48,7 +50,7 @@ theorem tstep_ok (m : Memo I K V) (ht : Transparent m) (t : Table K V) (th : Thr
     | idle =>
       simp only
       cases hg : tget (m.key i) t with
-      | none => exact ⟨hi, afterMiss_ok m th i rest hres htodo⟩
+      | none => exact ⟨hi, afterMiss_ok m m.compute th i rest hres htodo⟩
       | some v =>
         simp only
         by_cases ha : m.accept i v = true
@@ -63,10 +65,15 @@ theorem tstep_ok (m : Memo I K V) (ht : Transparent m) (t : Table K V) (th : Thr
           · simp only [hp, if_true]
             exact ⟨hi, hres, by simp⟩
           · simp only [hp]
-            exact ⟨hi, afterMiss_ok m th i rest hres htodo⟩
-    | needPop => exact ⟨inv_tdel _ m _ t hi, afterMiss_ok m th i rest hres htodo⟩
-    | needStore v =>
-      have hv : v = m.compute i ∧ m.cacheable i = true := by simpa [hphase, htodo] using hph
+            exact ⟨hi, afterMiss_ok m m.compute th i rest hres htodo⟩
+    | needPop => exact ⟨inv_tdel _ m _ t hi, afterMiss_ok m m.compute th i rest hres htodo⟩
+    | needFill w => exact absurd hph (by simp [hphase, htodo])
+    | needStore v fill =>
+      have hv : v = m.compute i ∧ m.cacheable i = true ∧ fill = none := by simpa [hphase, htodo] using hph
+      obtain ⟨hv1, hv2, hv3⟩ := hv
+      subst hv3
+      have hv : v = m.compute i ∧ m.cacheable i = true := ⟨hv1, hv2⟩
+      simp only
       refine ⟨?_, finish_ok m th i rest v hres hv.1⟩
       intro kv hkv
       simp only [tset] at hkv
@@ -92,6 +99,13 @@ theorem run_inv (m : Memo I K V) (ht : Transparent m) : ∀ (sched : List Nat) (
 omit [DecidableEq K] in
 theorem init_inv (m : Memo I K V) (progs : List (List I)) : Inv m (State.init progs : State I K V) :=
   ⟨inv_nil _ m, fun _ => ⟨by simp [State.init], by simp [State.init]⟩⟩
+
+theorem runG_false (m : Memo I K V) : ∀ (sched : List Nat) (s : State I K V), runG m false m.compute s sched = run m s sched
+  | [], _ => rfl
+  | t :: sched, s => by
+    simp only [runG, run]
+    have : stepG m false m.compute s t = step m s t := rfl
+    rw [this, runG_false m sched]
 
 /-- a key that contains every field the miss branch reads (C05's criterion, `keyOf_eq_of_subset`) -/
 theorem fieldMemo_transparent {W : Type} (fs ds : List Field) (hsub : ∀ d ∈ ds, d ∈ fs) (F : List Val → W) :
